@@ -1191,7 +1191,7 @@ def reset_after_histories(rng, kind, to, base_id=720, depth=4):
     loaded = [[176 + ch, 121, 0], [176 + ch, 120, 0], [176 + ch, 123, 0], [176 + ch, 0, 1], [192 + ch, 5, 0], [255, 0, 0]]
     seqs = [seq for n in range(1, depth + 1) for seq in itertools.product(alpha, repeat=n)]
     wide = alpha + loaded
-    seqs += [seq for n in range(1, depth) for seq in itertools.product(wide, repeat=n) if any(m in loaded for m in seq)]
+    seqs += [seq for n in range(1, min(depth, 4)) for seq in itertools.product(wide, repeat=n) if any(m in loaded for m in seq)]
     for seq in seqs:
         if True:
             out.append({"op": "new", "id": a, "k": kind, "to": to})
